@@ -8,6 +8,9 @@ CONSTANTS
   FixBatch = TRUE
   LossySend = FALSE
   HasKeepalive = TRUE
+  DirectCalls = TRUE
+  MaxMsgLen = 1
+  AsyncApply = FALSE
   Eager = TRUE
 
 CHECK_DEADLOCK FALSE
